@@ -95,7 +95,7 @@ class C17(PropBase):
             "partner strings (ordinary, '..', '', drive-prefixed), plus random long strings with mixed separators, drive and UNC "
             "prefixes, plus the hostile-name dictionary (every core '..', '', 'C:', '.', encoded separators in every spelling x wrapper "
             "(whitespace, markers, extensions, the checkout's own string literals) x position x directory style x role); url probe: every percent "
-            "spelling of . : / \\ ? # % @, all dot-segment spellings, server-URL cases; raw references for Url::join (schemes x slash runs x authorities/paths, random); ids nil / ordinary / maximal / PDB2.0 / absent, code ids with "
+            "spelling of . : / \\ ? # % @, all dot-segment spellings, server-URL cases; raw references for Url::join (schemes x slash runs x authorities/paths, random); code-info redirects (prefix x server-supplied debug file x id x tail); ids nil / ordinary / maximal / PDB2.0 / absent, code ids with "
             "non-hex bytes; a case is non-trivial when at "
             "least one builder returned a path; distinct = distinct case lines")
     trusted_base = [
@@ -152,9 +152,13 @@ class C17(PropBase):
                 "every file-system sink (fs::*, NamedTempFile, persist, SymbolFile::from_file, exists/is_file/...) receives a root or such a joined path "
                 "(c17_src_sinks_known, c17_src_sinks_contained), over the whole crate: every call of a file-system callee in any file is one of these sinks "
                 "(c17_src_sink_calls_covered; closed callee vocabulary enforced by the translator) and no path is edited in place outside the compiled builders "
-                "(c17_src_no_path_edits). The tree before the fixes is refuted (c17_relative_unfixed_refuted, c17_url_unencoded_refuted). "
+                "(c17_src_no_path_edits). The server URL as configured is the root: HttpSymbolSupplier::new's appended '/' is pinned from the source and modelled "
+                "(c17_src_server_url_normalised, c17_server_url_root: the request path EXTENDS the configured path; refuted without the '/'); a debug file "
+                "name supplied by the server in a code-info redirect (Location header, parse_location) is covered like a name from the dump "
+                "(c17_redirect_contained). The tree before the fixes is refuted (c17_relative_unfixed_refuted, c17_url_unencoded_refuted). "
                 "Tie to the code: the extracted GENERATED model and the real code run on ~100k (code_file, debug_file, ids) cases in debug and release builds; "
-                "url probe (every request of HttpSymbolSupplier against a loopback server predicted by the model, ~12.6k) and filesystem probe (paths returned and "
+                "url probe (every request of HttpSymbolSupplier against a loopback server predicted by the model, ~13.2k incl. ~600 code-info redirects with hostile "
+                "Location headers), Url::join on ~21k raw references per build against the full dispatch model and filesystem probe (paths returned and "
                 "files created by both suppliers predicted by the flow model, ~4.5k; two sandboxes per case) ; an independent oracle re-checks the three "
                 "conditions, a real std::path join, request targets and sandbox containment on the implementation's answers.",
         "note": "Trusted: Coq kernel; the Rust-to-Gallina compiler and the std vocabulary C17/Prims.v (validated by the correspondence run on the generated "
@@ -409,6 +413,24 @@ class C17(PropBase):
             bases.append("".join(rng.choice(batoms) for _ in range(rng.range(1, 8))))
         for bsuf in dict.fromkeys(bases):
             cases.append("B %s" % hx(bsuf))
+        # code-info redirects: the SERVER supplies the debug file name (Location: <prefix><debug file>/<debug id>/<tail>)
+        ident = "5A9832E5287241C1838ED98914E9B7FF1"
+        dfs = ["x.pdb", "..", ".", "", "C:", "C:x.pdb", "%2e%2e", "%2E%2E", ".%2e", "a\\..\\b.pdb", "..\\..\\w", "\\\\srv\\share\\x.pdb", "a b.pdb",
+               "a?b", "a#b", "a:b", "http:", "@", "a%", "%", "x.PDB", "..pdb", "a.pdb.", "~", "a;b", "..\\", "C:\\", "a\\"]
+        prefixes = ["", "/", "//", "/sym/", "../", "/a/../", "http://evil/", "/..//", "\\", "/%2e%2e/"]
+        locs = []
+        for pre in prefixes:
+            for df in dfs:
+                locs.append(pre + df + "/" + ident + "/x.sym")
+        for i, df in enumerate(dfs):
+            pre = prefixes[i % len(prefixes)]
+            locs += [pre + df + "/zz/x.sym", pre + df + "//x.sym", pre + df + "/" + ident + "/", pre + df + "/" + ident + "/..",
+                     pre + df + "/" + ident + "/a/b", pre + df + "/" + ident, df]
+        for _ in range(150):
+            locs.append("".join(rng.choice(["/", "/", "..", ".", "a", "x.pdb", ident, "\\", "%2e", ":", "?", "#", " ", "C:", "zz"]) for _ in range(rng.range(1, 7))))
+        for loc in dict.fromkeys(locs):
+            if loc and loc == loc.strip() and all(32 <= ord(ch) < 127 for ch in loc):
+                cases.append("R %s %s %s" % (hx("k.dll"), hx("5a"), hx(loc)))
         return list(dict.fromkeys(cases))
 
     # ------------------------------------------------------------------ Url::join on RAW references (all branches of the dispatch)
@@ -657,8 +679,9 @@ class C17(PropBase):
                     continue
                 parts = a.split("|")
                 base_case = parts[0] == "B"
-                rel = None if base_case or parts[1] == "N" else unhx(parts[1]).decode("utf-8", "replace")
-                calls = [self._targets(f) for f in (parts[1:] if base_case else parts[2:])]
+                redirect_case = parts[0] == "R"
+                rel = None if base_case or redirect_case or parts[1] == "N" else unhx(parts[1]).decode("utf-8", "replace")
+                calls = [self._targets(f) for f in (parts[1:] if (base_case or redirect_case) else parts[2:])]
                 if any(t == "" for call in calls for t in call):
                     # the listener accepted a connection that carried no request line (the client gave up before sending: seen once
                     # while a cargo build saturated the machine).  An HTTP request always has a non-empty target, so this is not an
@@ -683,7 +706,11 @@ class C17(PropBase):
                         path = t.split("?", 1)[0]
                         segs = [x.lower().replace("%2e", ".") for x in path.split("/")]
                         if not path.startswith("/root/") or ".." in segs:
-                            bad = "url probe: a lookup path (breakpad_sym server_rel = %r) was requested as %r, outside the server root /root/" % (rel, t)
+                            if redirect_case:
+                                bad = ("url probe: after a code-info redirect (Location: %r) a lookup path was requested as %r, outside the server root /root/"
+                                       % (unhx(c.split()[3]).decode("utf-8", "replace"), t))
+                            else:
+                                bad = "url probe: a lookup path (breakpad_sym server_rel = %r) was requested as %r, outside the server root /root/" % (rel, t)
                             break
                     if bad is None and rel is not None and not calls[0]:
                         bad = ("url probe: server_rel %r produced no request to the configured server (the URL resolved elsewhere)" % rel)
